@@ -51,15 +51,12 @@ def _cases(spec, rng):
     if k == "roundtrip":
         # number <-> string conversions composed, on literals and (judge: always solved) on a variable standing for them
         for a in P:
-            if len(a[1]) > 100:
-                continue
             yield ["inttostr", ["stoint", a]]
             yield ["stoint", ["inttostr", ["stoint", a]]]
             yield ["seq", ["inttostr", ["stoint", a]], a]
             yield ["slen", ["inttostr", ["stoint", a]]]
         return
     if k == "pairs":
-        P = [p for p in P if len(p[1]) <= 100]
         pairs = list(itertools.product(P, P))
         for n, (a, b) in enumerate(pairs):
             if n % spec["parts"] != spec["part"]:
@@ -75,6 +72,10 @@ def _cases(spec, rng):
             yield ["sreplace", a, b, rng.choice(P)]
             yield ["sreplace", a, b, sb.S("")]
     elif k == "literals":
+        for a in sb.long_numerals():
+            yield ["stoint", a]
+            yield ["stoint@meth", a]
+            yield ["slen", a]
         for a in P:
             yield a
             yield ["slen", a]
